@@ -1,7 +1,7 @@
 use crate::codegen::CodegenContext;
 use crate::errors::CoreResult;
 use crate::parser::code_map::Span;
-use crate::parser::{Expression, Located, Token};
+use crate::parser::{Expression, Identifier, Located, Token};
 use codespan_reporting::diagnostic::Diagnostic;
 
 pub struct ConfigExtractor<'a> {
@@ -41,6 +41,72 @@ impl<'a> ConfigExtractor<'a> {
             Some(expr) => ctx.evaluate_expression_as_string(&expr, true),
             None => Ok(None),
         }
+    }
+
+    /// A string value that is going to be used as the name of a segment or bank
+    pub fn try_get_identifier(
+        &self,
+        ctx: &mut CodegenContext,
+        key: &str,
+    ) -> CoreResult<Option<Identifier>> {
+        match self.try_get_string(ctx, key)? {
+            Some(str) if str.is_empty() || str.contains('.') => Err(Diagnostic::error()
+                .with_message(format!(
+                    "configuration key '{}' should be a non-empty name without periods",
+                    key
+                ))
+                .with_labels(vec![self.key_span(key).to_label()])
+                .into()),
+            Some(str) => Ok(Some(Identifier::new(str))),
+            None => Ok(None),
+        }
+    }
+
+    pub fn get_identifier(&self, ctx: &mut CodegenContext, key: &str) -> CoreResult<Identifier> {
+        self.get_string(ctx, key)?;
+        Ok(self.try_get_identifier(ctx, key)?.unwrap())
+    }
+
+    /// An integer value that must lie within `range`
+    pub fn try_get_i64_in_range(
+        &self,
+        ctx: &mut CodegenContext,
+        key: &str,
+        range: std::ops::RangeInclusive<i64>,
+    ) -> CoreResult<Option<i64>> {
+        let val = self.try_get_i64(ctx, key)?;
+        if let Some(val) = val {
+            self.check_range(key, val, range)?;
+        }
+        Ok(val)
+    }
+
+    pub fn check_range(
+        &self,
+        key: &str,
+        val: i64,
+        range: std::ops::RangeInclusive<i64>,
+    ) -> CoreResult<()> {
+        if range.contains(&val) {
+            Ok(())
+        } else {
+            Err(Diagnostic::error()
+                .with_message(format!(
+                    "configuration key '{}' should be between {} and {}, but is {}",
+                    key,
+                    range.start(),
+                    range.end(),
+                    val
+                ))
+                .with_labels(vec![self.key_span(key).to_label()])
+                .into())
+        }
+    }
+
+    fn key_span(&self, key: &str) -> Span {
+        self.try_get_kvp(key)
+            .map(|(k, v)| k.span.merge(v.span))
+            .unwrap_or(self.config_span)
     }
 
     pub fn try_get_i64(&self, ctx: &mut CodegenContext, key: &str) -> CoreResult<Option<i64>> {
